@@ -115,3 +115,22 @@ def plan_C10(tier, seed):
     return dict(level="exploration", rule=RULE_ARENA + "; C10 oracle: chunk iterators vs ledger order/extent, live blocks contained in exactly one slice; uniform histories: slices tiled exactly by the allocated objects",
                 shards=arena_shards(seed, tier, ["general"], 60, 600, miri_q=0, miri_t=4) + arena_shards(seed, tier, ["uniform"], 120, 1200, workload="uniform", miri_q=1, miri_t=8, asan_t=2),
                 require={"c10.uniform_tilings_checked": 10000, "c10.iter_compared": 200}, assumptions=ASSUME_COMMON)
+
+
+def plan_C09(tier, seed):
+    q = tier == "quick"
+    shards = []
+    n = 0
+    for rep in range(1 if q else 8):
+        for ma in MAS:
+            for eng in ("debug", "release"):
+                shards.append(sh(eng, "c09", seed, n, timeout=900, ma=ma, iters=(12 if q else 40), ops=(70 if q else 110), max_k=(40 if q else 200)))
+                n += 1
+    for i in range(1 if q else 8):
+        shards.append(sh("miri", "c09", seed, 1000 + i, timeout=1500, ma=MAS[(seed + i) % 5], iters=1, ops=(12 if q else 25), max_k=(3 if q else 8)))
+    return dict(level="fault_enumeration",
+                rule=("one evaluation = one (history, refusal schedule) pair, run twice (try_ methods / infallible twins); for every generated history the fault-free run counts its n chunk requests, "
+                      "then Kth(k) for every k<=min(n,max_k), FromKth, Above(size) and Above(size-16) for every chunk size seen, All and Prob are enumerated; "
+                      "distinct_nontrivial counts distinct (history, schedule) pairs in which at least one refusal was actually injected"),
+                shards=shards, require={"c09.schedules_that_fired": 300, "c09.twin_ops_compared": 20000, "c09.failure_state_checks": 2000},
+                assumptions=ASSUME_COMMON + ["'never fails to terminate' is checked as bounded progress: at most 200 refused chunk requests inside one call (the halving retry loop legitimately needs <= 64); a wall-clock watchdog firing is inconclusive"])
